@@ -67,6 +67,22 @@ def flush_before_seek(ctx, prog, rule):
         S.step("device-cursor", calls_where(f, lambda c, t, R: (c.endswith("Seek::seek") or c.endswith("Seek::stream_position") or c == RCP)))
         S.must_pass("flush")
         S.before("flush", "device-cursor")
+    # physical_size leaves the device cursor where it was: after looking at the end of the device every successful
+    # path seeks back to the position taken before (the next flush writes the buffered page at the cursor)
+    g = prog.fn(PW + "physical_size")
+    Rg = Resolver(g)
+    pos_b = [bi for bi, t in g.calls(lambda c, t: c.endswith("Seek::stream_position"))]
+    end_b = [bi for bi, t in g.calls(lambda c, t: c.endswith("Seek::seek") and strip(Rg.operand(t["args"][1]))[0] == "agg" and strip(Rg.operand(t["args"][1]))[1][2] in ("End", "Current"))]
+    back_b = []
+    for bi, t in g.calls(lambda c, t: c.endswith("Seek::seek")):
+        a = strip(Rg.operand(t["args"][1]))
+        if a[0] == "agg" and a[1][2] == "Start" and a[2] and strip(a[2][0])[0] == "call" and len(strip(a[2][0])) > 3 and strip(a[2][0])[3] in pos_b:
+            back_b.append(bi)
+    if end_b:
+        okb = bool(back_b) and all(g.ok_reachable(removed=back_b, start=g.cfg().get(e, [])) is None for e in end_b)
+    else:
+        okb = True                  # the cursor is never moved
+    ctx.ob(rule, "cursor-restored/%s" % short(g.path), okb, "physical_size: %d seek(s) away from the current position, every successful path afterwards seeks back to the saved stream position (%d restoring seeks)" % (len(end_b), len(back_b)))
     # physical_seek details
     f = prog.fn(PW + "physical_seek")
     R = Resolver(f)
@@ -275,11 +291,34 @@ def flush_protocol(ctx, prog, rule):
     ctx.ob(rule, "offset-unchanged/%s" % short(f.path), not offs, "flush does not modify self.offset (%d assignments)" % len(offs))
 
 
+def _align_end_inclusive(ctx, prog, rule):
+    """PagedReader::align may move the cursor exactly to the end of the logical file (a last packet padded up to the
+    end of the last page is legal): on the end-of-file test the *equal* outcome has to be able to succeed"""
+    f = prog.fn("paged_reader::PagedReader::<T>::align")
+    ctx.fn_seen(f)
+    R = Resolver(f)
+    verdict, desc = None, "no comparison with log_file_size found"
+    for bi in f.cfg():
+        ot = order_test(f, R, bi)
+        if ot is None:
+            continue
+        a, op, b, tr, fa = ot
+        sides = [tree_str(strip_deep(a)), tree_str(strip_deep(b))]
+        if not any(x.endswith("log_file_size") for x in sides):
+            continue
+        eq_succ = tr if op in ("Ge", "Le") else fa
+        okq = f.ok_reachable(start=[eq_succ]) is not None
+        verdict = okq if verdict is None else (verdict and okq)
+        desc = "%s %s %s: the equal outcome %s" % (sides[0][:50], op, sides[1][:50], "can succeed" if okq else "is rejected")
+    ctx.ob(rule, "align-end-inclusive/PagedReader::align", verdict, "PagedReader::align: %s (aligning exactly onto the end of the file must be accepted)" % desc)
+
+
 def formulas(ctx, prog, rule, side="both"):
     if side in ("both", "writer"):
         _formulas_writer(ctx, prog, rule)
     if side in ("both", "reader"):
         _formulas_reader(ctx, prog, rule)
+        _align_end_inclusive(ctx, prog, rule)
 
 
 def _formulas_writer(ctx, prog, rule):
